@@ -103,6 +103,17 @@ func (d *sendreqDom) Gen(r *gen.R, tier string, emit func(string)) {
 	}
 	u := int(sendUnit / time.Millisecond)
 	var lines []string
+	// every kind of message in first position, well inside the deadline, followed by a response: a
+	// pre-response (any message starting with a letter, upper or lower case) never ends the request
+	for _, m := range sendMsgs {
+		if strings.Contains(m, "%d") {
+			m = fmt.Sprintf(m, 3*u)
+		}
+		lines = append(lines, wire.Line("send", "T", "T", "T", strconv.Itoa(4*u), "2", strconv.Itoa(u), m, strconv.Itoa(3*u), `{"result":"late"}`))
+	}
+	for _, m := range []string{`Info:"working" timeout:"` + strconv.Itoa(3*u) + `"`, `X-Progress:"50"`, `A`, `z`, `Z:"1"`} {
+		lines = append(lines, wire.Line("send", "T", "T", "T", strconv.Itoa(2*u), "2", strconv.Itoa(u), m, strconv.Itoa(3*u), `{"result":"late"}`))
+	}
 	for i := 0; i < n; i++ {
 		ma, su, pu := "T", "T", "T"
 		switch r.Intn(12) {
@@ -376,7 +387,7 @@ func natSend(a []string) string {
 	s.Handle("m",
 		res.Call("ok", func(r res.CallRequest) { r.OK(map[string]int{"v": 1}) }),
 		res.Call("pre", func(r res.CallRequest) {
-			r.Timeout(600 * time.Millisecond)
+			r.Timeout(600*time.Millisecond + 500*time.Microsecond) // announced as whole milliseconds: timeout:"600"
 			time.Sleep(250 * time.Millisecond)
 			r.OK(map[string]int{"v": 2})
 		}),
